@@ -17,6 +17,15 @@ from .values import (SDict, V, NONE, Unsupported, Infeasible, PathEnd, PyRaise, 
 from .modules import ModuleRef, FuncRef, ClassRef, Module
 
 
+def memo_decorated(node):
+    for d in getattr(node, 'decorator_list', []):
+        f = d.func if isinstance(d, ast.Call) else d
+        name = f.attr if isinstance(f, ast.Attribute) else getattr(f, 'id', None)
+        if name in ('lru_cache', 'cache'):
+            return True
+    return False
+
+
 class ReturnSignal(Exception):
     def __init__(self, value):
         self.value = value
@@ -267,6 +276,8 @@ class Interp:
         from .values import NpScalar
         if isinstance(v, NpScalar):
             return self.truth(v.val)
+        if hasattr(v, 'pv_truth'):
+            return v.pv_truth(self)
         if isinstance(v, bool):
             return v
         if v is None:
@@ -366,6 +377,8 @@ class Interp:
             model = self.registry.models.get(fn.qualname) if self.registry else None
             if model is not None and fn.qualname not in self.registry.inline_now:
                 return model(self, list(args), kwargs)
+            if self.registry is not None and getattr(self.registry, 'memo', False) and memo_decorated(fn.node):
+                return self.call_memoised(fn, args, kwargs)
             return self.run_function(fn.node, fn.module, None, fn.qualname, fn.cls, args, kwargs)
         if isinstance(fn, Closure):
             model = self.registry.models.get(fn.qualname) if self.registry else None
@@ -389,6 +402,54 @@ class Interp:
         if callable(fn) and getattr(fn, '_pyvc_model', False):
             return fn(self, list(args), kwargs)
         raise Unsupported('call of %r' % (fn,))
+
+    def call_memoised(self, fn, args, kwargs):
+        """functools.lru_cache / cache (ASSUMED contract): a table keyed by the call's positional
+        and keyword arguments (objects without __eq__/__hash__ by identity, numbers by value);
+        a later call with an equal key returns the stored result without running the body;
+        exceptions are not cached.  Eviction (maxsize) is not modelled: a hit is assumed
+        whenever an equal key was stored before."""
+        from . import lib
+        table = self.ghost.setdefault('memo', {}).setdefault(fn.qualname, [])
+        key = (tuple(args), tuple(sorted(kwargs.items())))
+        for (kargs, kkw), val in table:
+            if len(kargs) != len(args) or [k for k, _ in kkw] != [k for k, _ in key[1]]:
+                continue
+            conds, same = [], True
+
+            def key_eq(a, b):
+                """None = certainly different keys; else conditions under which the components are equal"""
+                by_identity = (Obj, Closure, BoundMethod, Builtin, FuncRef, ClassRef)
+                if isinstance(a, (tuple, list)) or isinstance(b, (tuple, list)):
+                    if not (isinstance(a, (tuple, list)) and isinstance(b, (tuple, list))) or len(a) != len(b):
+                        return None
+                    out = []
+                    for x, y in zip(a, b):
+                        r = key_eq(x, y)
+                        if r is None:
+                            return None
+                        out += r
+                    return out
+                if isinstance(a, by_identity) or isinstance(b, by_identity) or a is None or b is None \
+                        or (callable(a) and getattr(a, '_pyvc_model', False)) or (callable(b) and getattr(b, '_pyvc_model', False)):
+                    return [] if a is b else None
+                if isinstance(a, (str, bool)) or isinstance(b, (str, bool)):
+                    return [] if (type(a) is type(b) and a == b) else None
+                return [lib.to_z3(lib.compare(self, ast.Eq(), a, b))]
+            for a, b in list(zip(kargs, args)) + [(x[1], y[1]) for x, y in zip(kkw, key[1])]:
+                r = key_eq(a, b)
+                if r is None:
+                    same = False
+                    break
+                conds += r
+            if not same:
+                continue
+            if self.branch(z3.And(conds) if conds else True, 'memo-hit@%s' % fn.qualname):
+                self.log.append(('memo-hit', fn.qualname))
+                return val
+        val = self.run_function(fn.node, fn.module, None, fn.qualname, fn.cls, args, kwargs)
+        table.append((key, val))
+        return val
 
     def instantiate(self, cls, args, kwargs):
         model = self.registry.models.get(cls.qualname) if self.registry else None
@@ -458,6 +519,7 @@ class Interp:
             self.exec_stmt(st, frame)
 
     def exec_stmt(self, st, frame):
+        self.current_line = '%s:%s' % (getattr(frame.module, 'short', '?'), getattr(st, 'lineno', '?'))
         m = getattr(self, 'st_' + type(st).__name__, None)
         if m is None:
             raise Unsupported('statement %s at line %d' % (type(st).__name__, st.lineno))
@@ -507,6 +569,10 @@ class Interp:
     def st_AugAssign(self, st, frame):
         cur = self.eval(_load(st.target), frame)
         v = self.eval(st.value, frame)
+        if hasattr(cur, 'pv_iop'):
+            from . import lib
+            cur.pv_iop(self, lib._OPNAMES.get(type(st.op).__name__), v)      # in place: the target keeps its object
+            return
         self.assign(st.target, self.binop(st.op, cur, v), frame)
 
     def st_Delete(self, st, frame):
